@@ -7,11 +7,18 @@ EXTENDS Roots
 VARIABLES x, r
 Init == x \in 1..400 /\ r = 0
 Next == r = 0 /\ r' \in 1..30 /\ UNCHANGED x
-\* p = 1 or 2 digit results at exponent 0 for x with exponent 0: r is acceptable iff it is the nearest integer (ties impossible for integers... (r+1/2)^2 is never an integer)
-Nearest(xx, rr) == (2 * rr - 1) * (2 * rr - 1) < 4 * xx /\ 4 * xx < (2 * rr + 1) * (2 * rr + 1)
+\* two-digit results at exponent 0: r is acceptable iff it is the nearest representable value; the
+\* representable values below 10 are 9.9, 9.8, ... so for r = 10 the lower half-way point is 9.95
+Nearest(xx, rr) == /\ (IF rr = 10 THEN 400 * xx > 199 * 199 ELSE (2 * rr - 1) * (2 * rr - 1) < 4 * xx)
+                   /\ 4 * xx < (2 * rr + 1) * (2 * rr + 1)
+\* x = 99: sqrt = 9.9499 rounds to 9.9, not to 10
+BinadeCase == ~SqrtOK(FromInt(99), 0, FromInt(10), 0, 2, TRUE) /\ SqrtOK(FromInt(99), 0, FromInt(99), -1, 2, TRUE)
+              /\ ~SqrtOK(<<999, 999>>, 14, <<0, 100>>, 5, 6, TRUE) /\ SqrtOK(<<999, 999>>, 14, <<999, 999>>, 4, 6, TRUE)
 SqrtAgrees == (r > 0 /\ r >= 10) =>
    (SqrtOK(FromInt(x), 0, FromInt(r), 0, 2, r * r # x) <=> (r * r = x \/ Nearest(x, r)))
 SqrtExactFlag == (r > 0 /\ r * r = x) => (SqrtOK(FromInt(x), 0, FromInt(r), 0, 2, FALSE) /\ ~SqrtOK(FromInt(x), 0, FromInt(r), 0, 2, TRUE))
 CbrtAgrees == (r >= 10 /\ r * r * r # x * 100) =>
-   (CbrtOK(FromInt(x * 100), 0, FromInt(r), 0, 2, TRUE) <=> ((r - 1) * (r - 1) * (r - 1) < x * 100 /\ x * 100 < (r + 1) * (r + 1) * (r + 1)))
+   (CbrtOK(FromInt(x * 100), 0, FromInt(r), 0, 2, TRUE) <=>
+      (/\ (IF r = 10 THEN 99 * 99 * 99 < x * 100000 ELSE (r - 1) * (r - 1) * (r - 1) < x * 100)     \* below 10 one unit is 0.1
+       /\ x * 100 < (r + 1) * (r + 1) * (r + 1)))
 =============================================================================
